@@ -154,6 +154,17 @@ CHECKS["C19"] = dict(
          "the outputs and comparison with exact rational formulas.",
     note="Reals axioms (allow-listed) enter only C19_extend_minimal. The four-point sphere identity is proved in Cramer form (sphere_four_points_equidistant), the determinant form of the code is tested.", design="5 C19")
 
+CHECKS["C18"] = dict(
+    technique="Coq proof on the SimpleCycle model (1-chain algebra of oriented dual triangles, structural invariant of the cycle arrays) + differential run of the hooked clip on permuted/rotated vertex arrays against the extracted model",
+    text="Theorems (every array length, every vertex order): try_extend adds exactly the triangle's boundary to the cycle's chain; when compute_boundary succeeds the cycle's chain "
+         "is the sum of the removed triangles' boundaries, which is invariant under permutation of the removed vertices and rotation of each dual, hence two successful clips of "
+         "permuted/rotated copies end with the same chain, and equal chains determine the same directed edges; the cycle arrays stay a proper cyclic list (Inv) through new/grow/"
+         "init/try_extend/compute_boundary/clip, and a proper cycle has no stale entries. Tie: the hooked clip on cells reached by the builder (all families incl. > 64 planes), "
+         "each clip repeated on random permutations + rotations and all orders of <= 6 removed vertices: no panic, same set of cyclic triples, equal volume, closed surface; the "
+         "output array equals the extracted Coq clip_comb on the same array.",
+    note="Partial: that compute_boundary SUCCEEDS for every order of a connected removed set (the delayed-stack argument) is not proved; it is exercised exhaustively per case. "
+         "Floating-point classification of vertices is input to the model (the removed set), not modelled.", design="5 C18")
+
 NOT_YET = {}
 
 ALL = ["C%02d" % i for i in range(1, 21)]
@@ -200,7 +211,7 @@ def main():
         }],
         "checks": checks,
         "not_applicable": na,
-        "notes": "Extraction directives: exactly those of Coq's ExtrOcamlBasic.v and ExtrOcamlZBigInt.v (no others). Known/fixed findings: known_findings.json.",
+        "notes": "Extraction directives: those of Coq's ExtrOcamlBasic.v and ExtrOcamlZBigInt.v plus one of ours: Extract Constant Z.gcd => Big_int_Z.gcd_big_int. Known/fixed findings: known_findings.json.",
     }
     with open(os.path.join(VERIF, "MANIFEST.json"), "w") as f:
         json.dump(m, f, indent=1)
